@@ -719,11 +719,19 @@ impl Property for C13 {
         format!("c13.abort.{}", what)
     }
     fn strategy(&self, tier: Tier) -> BoxedStrategy<Json> {
+        self.strategy_for_shard(tier, 0)
+    }
+    fn shards(&self, _tier: Tier) -> usize {
+        18
+    }
+    fn strategy_for_shard(&self, tier: Tier, shard: usize) -> BoxedStrategy<Json> {
+        // shards 16 and 17 navigate: handles are read in mid-history (see HistCfg::w_navigate)
+        let w_navigate: u32 = if shard >= 16 { 5 } else { 0 };
         let max_ops = tier.pick(10usize, 30usize);
         proptest::collection::vec(any::<u16>(), 0..(max_ops * 8 + 8))
             .prop_map(move |genes| {
                 let mut g = Genes::new(genes);
-                let cfg = HistCfg { max_ops, safe_strings: false, w_struct: 8, w_attr: 5, w_chardata: 4, w_create: 5, huge_offsets: true, max_doc: 5, w_compound: 4, seams: true };
+                let cfg = HistCfg { max_ops, safe_strings: false, w_struct: 8, w_attr: 5, w_chardata: 4, w_create: 5, huge_offsets: true, max_doc: 5, w_compound: 4, seams: true, w_navigate, ..Default::default() };
                 hist::gen_history(&mut g, &cfg)
             })
             .boxed()
@@ -758,6 +766,12 @@ impl Property for C13 {
         for (step, op) in ops.iter().enumerate() {
             let kind = op["op"].as_str().unwrap_or("").to_string();
             if matches!(kind.as_str(), "substring" | "length") {
+                continue;
+            }
+            if kind == "children" {
+                // navigation only: the caller keeps the handles it finds; nothing to judge
+                hist::apply(&mut pool, op);
+                obs.label("op:children");
                 continue;
             }
             let before = snapshot(&pool);
